@@ -52,7 +52,26 @@ func (c *Ctx) spFor(ssoURL, sloURLIdp string, keyName, method string, post bool)
 			SSODescriptor: saml.SSODescriptor{SingleLogoutServices: []saml.Endpoint{{Binding: saml.HTTPRedirectBinding, Location: sloURLIdp, ResponseLocation: "https://idp.example.com/saml/slo-response-location"},
 				{Binding: saml.HTTPPostBinding, Location: sloURLIdp, ResponseLocation: "https://idp.example.com/saml/slo-response-location"}}},
 		}}}}
+	// the configured name-ID format, in rotation: unset (transient by the library's documented default), the package's constants,
+	// and legal formats the package has no constant for — the policy on the wire is the configured one
+	spForN++
+	s.AuthnNameIDFormat = nameIDFormatPool[spForN%len(nameIDFormatPool)]
 	return s
+}
+
+var spForN int
+var nameIDFormatPool = []saml.NameIDFormat{"", saml.TransientNameIDFormat, saml.EmailAddressNameIDFormat, saml.PersistentNameIDFormat, saml.UnspecifiedNameIDFormat,
+	"urn:oasis:names:tc:SAML:1.1:nameid-format:X509SubjectName", "urn:oasis:names:tc:SAML:2.0:nameid-format:kerberos", "urn:example:deployment:employee-number"}
+
+// wantNameIDPolicy: what NameIDPolicy/@Format (and a LogoutRequest's NameID/@Format) must read for a configured format
+func wantNameIDPolicy(f saml.NameIDFormat) string {
+	switch f {
+	case "":
+		return string(saml.TransientNameIDFormat)
+	case saml.UnspecifiedNameIDFormat:
+		return ""
+	}
+	return string(f)
 }
 
 func inflateB64(s string) ([]byte, error) {
@@ -177,6 +196,14 @@ func (c *Ctx) authnRedirect(endpoint, relay, keyName, method string, idp *saml.I
 				}
 				if len(dr.all) < 16 || !strings.HasPrefix(ar.ID, "id-") || len(ar.ID) < 3+32 || !strings.HasPrefix(fmt.Sprintf("%x", dr.all), ar.ID[3:]) {
 					why = append(why, "key=message-id ID is not derived from >=128 bits of the configured random source")
+				}
+				gotF := ""
+				if ar.NameIDPolicy != nil && ar.NameIDPolicy.Format != nil {
+					gotF = *ar.NameIDPolicy.Format
+				}
+				c.count("c12-name-id-format", string(s.AuthnNameIDFormat))
+				if gotF != wantNameIDPolicy(s.AuthnNameIDFormat) {
+					why = append(why, fmt.Sprintf("key=name-id-policy the configured name-ID format %q appears on the wire as %q", s.AuthnNameIDFormat, gotF))
 				}
 			}
 			if idp != nil && endpoint == idpSSOURL {
